@@ -1,6 +1,8 @@
 package h
 
 import (
+	tmbytes "github.com/tendermint/tendermint/libs/bytes"
+
 	sdk "github.com/cosmos/cosmos-sdk/types"
 
 	service "github.com/irismod/service"
@@ -186,4 +188,43 @@ func sceneTwoNewBatches() {
 		}
 	}
 	chk("C01 C02 C05", vf.And(balC.Sub(vf.Balance(consumer)).Equal(paid), vf.ModuleBalance(types.RequestAccName).Sub(esc).Equal(paid)), "consumer-pays-exactly-the-issued-batches-into-escrow")
+}
+
+// scenePauseNoticeKills: a context owned by another module is due for a batch its consumer cannot pay; the
+// module reacts to the pause notice by killing its context. What the module did lasts: the context ends
+// completed (completed is final), with no request and no charge.
+func scenePauseNoticeKills() {
+	k, ctx := vf.Env()
+	ctx, H, now := Block(ctx)
+	Define(k, ctx, Svc)
+	owner, consumer, prov := vf.Addr("owner", 20), vf.Addr("consumer", 20), vf.Addr("prov", 20)
+	id := vf.Bytes("ctx", 40)
+	notices := 0
+	_ = k.RegisterResponseCallback(Mod, func(ctx sdk.Context, id tmbytes.HexBytes, outs []string, err error) {})
+	_ = k.RegisterStateCallback(Mod, func(ctx sdk.Context, cid tmbytes.HexBytes, cause string) {
+		notices++
+		rc, _ := k.GetRequestContext(ctx, cid)
+		_ = k.KillRequestContext(ctx, cid, rc.Consumer)
+	})
+	timeout := vf.Int64("timeout")
+	vf.Assume(vf.And(timeout >= 1, timeout < maxH))
+	b := Binding(k, ctx, "b", Svc, prov, owner, 0, 0, false)
+	vf.Assume(vf.And(b.Available, uint64(timeout) >= b.QoS))
+	fee := RefPrice(b.Pricing, now, 0)
+	rc := types.NewRequestContext(Svc, []sdk.AccAddress{prov}, consumer, InputOK, coins(fee), timeout, false, true, uint64(timeout)+5, -1,
+		0, 0, 0, 1, types.BATCHCOMPLETED, types.RUNNING, 1, Mod)
+	k.SetRequestContext(ctx, id, rc)
+	k.AddNewRequestBatch(ctx, id, H)
+	balC := vf.Amount("balConsumer")
+	vf.Assume(balC.LT(fee))
+	vf.SetBalance(consumer, balC)
+
+	panicked := vf.Try(func() { service.EndBlocker(ctx, k) })
+	chk("C20", !panicked, "endblock-no-panic")
+	vf.Assume(!panicked)
+	post, found := k.GetRequestContext(ctx, id)
+	n1, _, n3 := countRecords(k, ctx, id, 1)
+	chk("C12", notices == 1, "one-pause-notice")
+	chk("C09 C12", vf.And(found, post.State == types.COMPLETED), "what-the-module-does-on-the-pause-notice-lasts")
+	chk("C09 C06 C05", vf.All(n1 == 0, n3 == 0, vf.Balance(consumer).Equal(balC)), "no-request-and-no-charge-for-the-killed-context")
 }
